@@ -78,8 +78,9 @@ func init() {
 	childCmds["c13race"] = c13RaceChild
 }
 
-// c13FirstUse: the very first library calls of this process are 32 concurrent compilations of distinct policy values that
-// leave the architecture implicit, released together (lazily initialised package state would be written here only).
+// c13FirstUse: the very first library calls of this process are 32 concurrent calls released together - compilations of
+// distinct policy values that leave the architecture implicit, text conversions, look-ups and dumps (lazily initialised
+// or memoised package state would be written here only).
 func c13FirstUse() int {
 	x := refsemArch("x86_64")
 	var wg sync.WaitGroup
@@ -90,15 +91,26 @@ func c13FirstUse() int {
 		p := c13Policy(x, g%2)
 		seccomp.VerifSetArch(p, nil)
 		wg.Add(1)
-		go func() { defer wg.Done(); <-start; res[g] = c13Compile(p) }()
+		go func() {
+			defer wg.Done()
+			<-start
+			switch g % 4 {
+			case 0, 1:
+				res[g] = c13Compile(p)
+			case 2:
+				res[g] = c13Texts() // text forms of actions, operations and flag words (combined and unknown ones too)
+			default:
+				res[g] = c13Lookups() + c13Dump(p)
+			}
+		}()
 	}
 	close(start)
 	wg.Wait()
 	bad := 0
-	for g := 2; g < 32; g++ {
-		if res[g] != res[g%2] {
+	for g := 4; g < 32; g++ {
+		if res[g] != res[g%4] {
 			bad++
-			fmt.Printf("RESULT-MISMATCH first-use: goroutine %d differs from goroutine %d\n", g, g%2)
+			fmt.Printf("RESULT-MISMATCH first-use: goroutine %d differs from goroutine %d\n", g, g%4)
 		}
 	}
 	return bad
@@ -578,7 +590,7 @@ func c13RacePass(ctx *evid.Ctx, scratch string) int {
 	parallelFor(runs, func(i int) {
 		argv := []string{raceBin, "child", "c13race"}
 		if i >= 4 {
-			argv = append(argv, "first-use") // 48 fresh processes whose first library calls are concurrent
+			argv = append(argv, "first-use") // 48 fresh processes whose first library calls are concurrent (compilations, text conversions, look-ups, dumps)
 		}
 		r := runCmd(10*time.Minute, append(os.Environ(), "GORACE=halt_on_error=0 exitcode=66"), scratch, argv...)
 		if strings.Contains(r.Stderr, "WARNING: DATA RACE") {
